@@ -203,8 +203,8 @@ def _same_ids(got, want) -> bool:
     return sorted(id(x) for x in got) == sorted(id(x) for x in want)
 
 
-def queries(shape, cards, types=None, fcards=None) -> bool:
-    m = R.build(shape, cards, types=types, fcards=fcards)
+def queries(shape, cards, types=None, fcards=None, names=None) -> bool:
+    m = R.build(shape, cards, types=types, fcards=fcards, names=names)
     return check_queries(m, shape, cards, types, fcards)
 
 
@@ -425,7 +425,9 @@ def lookup(shape, pos, name) -> bool:
         return False
     if len(name) > 1 and name[:-1] not in names and m.get_feature_by_name(name[:-1]) is not None:
         return False
-    return True
+    # every other query on the model that carries the symbolic name (a name equal to a sibling's up to letter
+    # case, a prefix of it, ... must not change what the predicates and listings say)
+    return check_queries(m, shape, R.default_cards(shape))
 
 
 def batch_ctc_listings(seed, count):
@@ -535,30 +537,34 @@ def batch_native_grid(max_n):
     """Native validation sweep: all shapes x all cardinalities through the same oracle."""
     res = {'instances': 0, 'nontrivial': 0, 'violations': [], 'native_runs': 0}
     from .common import SIBLING_GROUPS
+    from .larger import CASE_NAMES
     for shape in R.shapes(max_n) + (SIBLING_GROUPS if max_n < 6 else []):
         for cards in R.all_cards(shape, allow_zero_max=True):
             res['instances'] += 1
             res['native_runs'] += 1
             res['nontrivial'] += 1
-            ok = False
-            try:
-                ok = queries(shape, cards)
-            except Exception as exc:
+            # placeholder names, and names that differ from one another by letter case only (distinct, legal names)
+            for ns in (None, res['instances'] % len(CASE_NAMES)):
                 ok = False
-            if not ok:
-                res['violations'].append({'label': 'native-grid', 'detail': 'query oracle fails on shape %s cards %r' % (R.shape_str(shape), cards),
-                                          'replay_func': 'replay_queries', 'replay_args': [shape, cards]})
-                if len(res['violations']) > 3:
-                    return res
+                nm = None if ns is None else CASE_NAMES[ns][:R.n_features(shape)]
+                try:
+                    ok = queries(shape, cards, names=nm)
+                except Exception as exc:
+                    ok = False
+                if not ok:
+                    res['violations'].append({'label': 'native-grid', 'detail': 'query oracle fails on shape %s cards %r names %r' % (R.shape_str(shape), cards, nm),
+                                              'replay_func': 'replay_queries', 'replay_args': [shape, cards, nm]})
+                    if len(res['violations']) > 3:
+                        return res
     res['sample'] = {'shape': R.shape_str(shape), 'cards': cards}
     return res
 
 
-def replay_queries(shape, cards):
+def replay_queries(shape, cards, names=None):
     shape = _totuple(shape)
     cards = [tuple(c) for c in cards]
     try:
-        ok = queries(shape, cards)
+        ok = queries(shape, cards, names=names)
     except Exception as exc:
         return ['%s: %s' % (type(exc).__name__, exc)]
     return [] if ok else ['query oracle fails on shape %s cards %r' % (R.shape_str(shape), cards)]
